@@ -1401,7 +1401,11 @@ func (s *Sim) checkMembership() {
 					isDigestPkt := (ctx.kind == "deliver" || ctx.kind == "join") && ctx.node == o && viaDigest
 					if on {
 						if isDigestPkt && !m.Left {
-							if !c.Known("F2", "a node that was expired after crashing/closing is re-introduced as live by a peer's digest entry (Left=false) although it sent nothing since") {
+							if s.p.Prop != "C11" {
+								// the membership rules run under another property's test (C12): F2 is C11's
+								// finding, reported by C11's checks; here its effect is only adopted
+								c.Class("F2-effect-adopted")
+							} else if !c.Known("F2", "a node that was expired after crashing/closing is re-introduced as live by a peer's digest entry (Left=false) although it sent nothing since") {
 								c.Fatalf("C11 I6: %s", sig)
 							}
 							o.zombie[id] = true
